@@ -525,6 +525,26 @@ fn drive(p: &dyn Property, tier: Tier) -> ! {
     let mut viol_lines = vec![];
     let mut seen_class = BTreeSet::new();
     violations.sort_by_key(|v| v.case.to_string().len());
+    // a reported case must fail again when re-executed alone in this (fresh) process; a failure
+    // that does not reproduce points at state leaking between cases of a worker, i.e. at the
+    // machinery, and is never turned into a verdict
+    {
+        let mut checked = BTreeSet::new();
+        for v in &violations {
+            if v.class == "subject-crash" || v.class == "subject-hang" || v.case.get("cross_process").is_some() || !checked.insert(v.class.clone()) {
+                continue;
+            }
+            let r = std::panic::catch_unwind(std::panic::AssertUnwindSafe(|| p.replay(&v.case)));
+            if let Ok(Ok(())) = r {
+                machinery(&format!(
+                    "a failing case of class '{}' did not fail again when replayed alone: {} :: {}",
+                    v.class,
+                    v.case.to_string().chars().take(300).collect::<String>(),
+                    v.detail.chars().take(300).collect::<String>()
+                ));
+            }
+        }
+    }
     for v in &violations {
         // one replay file per class (the first = smallest in enumeration order per worker)
         if !seen_class.insert(v.class.clone()) {
